@@ -38,7 +38,7 @@ META = {
             "Arbitrary file content is loaded and searched through every entry point under a watchdog; no panic, no hang, missing file => not-found, undecodable => parse error, every well-formed list loads back equal.",
             "watchdog of 20 s stands in for 'bounded time'; native fuzz campaigns are not seed-reproducible, their saved inputs are"),
     "C11": ("generated concurrent programs under the race detector + porcupine linearizability of recorded LRU histories + sequential-answer differential",
-            "Generated goroutine programs over one loaded database / cache / LRU run under -race; every search must equal its sequential answer, LRU histories must be linearizable against the reference LRU model, counter totals must equal the number of calls.",
+            "Generated goroutine programs over one loaded database / cache / LRU run under -race, incl. barrier-released first use of fresh instances and concurrent requests for one query under option sets one field apart; every search must equal its sequential answer, LRU histories must be linearizable against the reference LRU model, counter totals must equal the number of calls.",
             "the harness does not own the Go scheduler: race-free atomicity bugs are found only if an observed history is non-linearizable"),
     "C12": ("rapid state machine vs a reference LRU model with interval logic for expiry",
             "Generated put/get/delete/clear/sweep histories over all capacities and lifetime regimes are compared step by step with a reference model (return values, victim identity via key sets, size bound, statistics).",
@@ -47,13 +47,13 @@ META = {
             "Paired searches with and without boosts must return the same set; boosted-word documents never lose score, others keep theirs bit-for-bit; AnalyzeDirectory on generated directory contents is deterministic, duplicate-free, 'generic' iff nothing recognised, boosts finite and >= 1.",
             "documented marker files anchor the analyzer expectations; Limit >= database size"),
     "C14": ("independent acceptor + output predicates + idempotence over generated byte strings (rapid + native fuzz)",
-            "Generated byte strings (all Unicode whitespace/control classes, invalid UTF-8, boundary lengths) are validated; acceptance must equal an independent acceptor, outputs must be clean and stable under re-validation; limits map into 1..100.",
+            "Generated byte strings (all Unicode whitespace/control classes, invalid UTF-8, boundary lengths) are validated; acceptance must equal an independent acceptor, outputs must be clean and stable under re-validation; limits map into 1..100; the built binary must search and record exactly the validated query (generated argv with punctuation-heavy questions).",
             "the acceptor is derived from the property statement, not from the code"),
     "C15": ("fault enumeration over the (main, personal, backup) fault matrix x generated retry configurations with an attempt-observer hook",
             "Every combination of file faults is loaded through LoadDatabaseWithFallback with generated retry settings; result must be a usable database without error, the real one when it can be, with exact attempt counts and monotone bounded delays observed through the hook.",
             "unreadable files need a non-root child (uid 65534); delays are observed via the hook, not wall-clock"),
     "C16": ("rapid state machine vs a reference log + totality over generated history file bytes (rapid + native fuzz)",
-            "Generated add/save/load/clear histories are compared with a reference log (bound, order, repeat-update, views); arbitrary file content followed by record+save must not panic and must leave the new query newest.",
+            "Generated add/save/load (fresh and same object)/clear histories are compared with a reference log (bound, order, repeat-update, views); arbitrary file content followed by record+save must not panic and must leave the new query newest.",
             "queries are valid UTF-8 as every real caller passes ValidateQuery output"),
     "C17": ("differential: built binary output vs in-process engine; JSON well-formedness; escape scan; history file; sub-command totality",
             "Generated CLI invocations in an isolated HOME: printed results must equal the engine's answer in order within the limit, JSON must decode to one object per result, no ESC bytes under no-color, exactly one matching newest history entry; every sub-command exits 0/1 without panic.",
